@@ -5,6 +5,7 @@ import (
 	"errors"
 
 	"github.com/cronokirby/saferith"
+	"github.com/fxamacker/cbor/v2"
 	"github.com/taurusgroup/multi-party-sig/internal/params"
 	"github.com/taurusgroup/multi-party-sig/pkg/hash"
 	"github.com/taurusgroup/multi-party-sig/pkg/math/curve"
@@ -19,6 +20,30 @@ type CorreOTSendSetup struct {
 	// Each column of this matrix is taken from one of the Receiver's corresponding
 	// columns, based on the corresponding bit of Delta.
 	_K_Delta [params.OTParam][params.OTBytes]byte
+}
+
+// correOTSendSetupMarshal mirrors CorreOTSendSetup with exported fields, for serialization.
+type correOTSendSetupMarshal struct {
+	Delta  [params.OTBytes]byte
+	KDelta [params.OTParam][params.OTBytes]byte
+}
+
+// MarshalBinary implements encoding.BinaryMarshaler.
+//
+// The fields of the setup are unexported, so that the default encoders would silently skip them.
+func (s *CorreOTSendSetup) MarshalBinary() ([]byte, error) {
+	return cbor.Marshal(correOTSendSetupMarshal{Delta: s._Delta, KDelta: s._K_Delta})
+}
+
+// UnmarshalBinary implements encoding.BinaryUnmarshaler.
+func (s *CorreOTSendSetup) UnmarshalBinary(data []byte) error {
+	var m correOTSendSetupMarshal
+	if err := cbor.Unmarshal(data, &m); err != nil {
+		return err
+	}
+	s._Delta = m.Delta
+	s._K_Delta = m.KDelta
+	return nil
 }
 
 // CorreOTSetupSender contains all of the state to run the Sender's setup of a Correlated OT.
@@ -121,6 +146,30 @@ func (r *CorreOTSetupSender) Round3(msg *CorreOTSetupReceiveRound3Message) (*Cor
 type CorreOTReceiveSetup struct {
 	_K_0 [params.OTParam][params.OTBytes]byte
 	_K_1 [params.OTParam][params.OTBytes]byte
+}
+
+// correOTReceiveSetupMarshal mirrors CorreOTReceiveSetup with exported fields, for serialization.
+type correOTReceiveSetupMarshal struct {
+	K0 [params.OTParam][params.OTBytes]byte
+	K1 [params.OTParam][params.OTBytes]byte
+}
+
+// MarshalBinary implements encoding.BinaryMarshaler.
+//
+// The fields of the setup are unexported, so that the default encoders would silently skip them.
+func (s *CorreOTReceiveSetup) MarshalBinary() ([]byte, error) {
+	return cbor.Marshal(correOTReceiveSetupMarshal{K0: s._K_0, K1: s._K_1})
+}
+
+// UnmarshalBinary implements encoding.BinaryUnmarshaler.
+func (s *CorreOTReceiveSetup) UnmarshalBinary(data []byte) error {
+	var m correOTReceiveSetupMarshal
+	if err := cbor.Unmarshal(data, &m); err != nil {
+		return err
+	}
+	s._K_0 = m.K0
+	s._K_1 = m.K1
+	return nil
 }
 
 // CorreOTSetupReceiver holds the Receiver's state on a Correlated OT Setup.
